@@ -3,3 +3,5 @@ RING_BUFFER(u32_ring, uint32_t)
 RING_BUFFER_ITER(u32_ring, uint32_t)
 RING_BUFFER(s16_ring, int16_t)
 RING_BUFFER_ITER(s16_ring, int16_t)
+RING_BUFFER(f64_ring, double)
+RING_BUFFER_ITER(f64_ring, double)
